@@ -241,7 +241,8 @@ FramesAfterClose(fmt, ch, B, N, F) ==
     \/ (B > 1 /\ N < F /\ F < N + B)
     \/ (B = 1 /\ PadsOdd(fmt) /\ F = N + 1 /\ (N * ch * ByteWidth(Sub(fmt))) % 2 = 1)      \* one pad frame, only for odd byte totals
 \* crash image taken when the header said hdrN frames: whole blocks only
-FramesInImage(B, hdrN, F) == F = (hdrN \div B) * B
+\* (an encoder may also flush its partial block when the header is updated -- SDS does -- and report every frame)
+FramesInImage(B, hdrN, F) == F = (hdrN \div B) * B \/ F = hdrN
 
 InfoMatches(fmt, ch, rate, info) ==
     /\ info.ch = ch
